@@ -3190,9 +3190,27 @@ static int get_more_chars(struct scanner_s *scanner) {
         scanner->buffer_limit = current_chars;
     } /* else just append to the currently buffered data */
 
-    /* once EOF has been detected, don't attempt to read from the character source any more */
-    nread = scanner->at_eof ? 0 : scanner->read_func(scanner->char_source, scanner->buffer + scanner->buffer_limit,
-                scanner->buffer_size - scanner->buffer_limit, &read_error);
+    for (;;) {
+        /* once EOF has been detected, don't attempt to read from the character source any more */
+        nread = scanner->at_eof ? 0 : scanner->read_func(scanner->char_source, scanner->buffer + scanner->buffer_limit,
+                    scanner->buffer_size - scanner->buffer_limit, &read_error);
+
+        if ((nread > 0) && scanner->cr_pending) {
+            /* the previous read ended in a CR, which has already been presented as a newline */
+            UChar *first = scanner->buffer + scanner->buffer_limit;
+
+            scanner->cr_pending = CIF_FALSE;
+            if (*first == UCHAR_NL) {
+                /* this is the second half of a CR LF pair split across two reads; drop it */
+                nread -= 1;
+                if (nread == 0) {
+                    continue;  /* nothing else was read; try again */
+                }
+                memmove(first, first + 1, nread * sizeof(UChar));
+            }
+        }
+        break;
+    }
 
     if (nread < 0) {
         return read_error;
@@ -3205,6 +3223,11 @@ static int get_more_chars(struct scanner_s *scanner) {
         UChar *bound = lead + nread;
         UChar *trail;
         UChar *dest;
+
+        if (*(bound - 1) == UCHAR_CR) {
+            /* whether an LF completes this terminator will be known only at the next read */
+            scanner->cr_pending = CIF_TRUE;
+        }
 
         do {
             lead = u_memchr(lead, UCHAR_CR, bound - lead);
